@@ -102,6 +102,18 @@ type FuncContract struct {
 	Uses   []string // lemmas made available to the proof of this function
 	Theory string   // "strings": discharge this function's obligations with the native SMT string theory
 	SelectGhost []SelectGhost // ghost updates attached to select cases
+	CallHooks   []CallHook
+}
+
+// CallHook: at the K-th call (source order) of the callee whose short key is Callee
+// (e.g. "runner.Do", "cluster.(Cluster).Unreserve"): ghost update or assertion, evaluated right after the call.
+// Callee "<-" denotes the K-th unary channel receive.
+type CallHook struct {
+	Callee     string
+	K          int
+	Ghost      string // "" for an assertion
+	E          Expr
+	Src, Where string
 }
 
 // SelectGhost: when case Case (0-based, source order) of the Select-th select statement fires, Ghost := E.
@@ -448,7 +460,7 @@ func parseExpr(src string) (e Expr, err error) {
 var itemKw = map[string]bool{"func": true, "extern": true, "spec": true, "axiom": true, "lemma": true,
 	"property": true, "opaque": true, "ghost": true, "theory": true, "import": true, "bind": true}
 var clauseKw = map[string]bool{"requires": true, "ensures": true, "modifies": true, "loop": true, "call": true,
-	"nopanic": true, "trusted": true, "pure": true, "cut": true, "induction": true, "fresh": true, "trigger": true, "uses": true, "auto": true, "select": true}
+	"nopanic": true, "trusted": true, "pure": true, "cut": true, "induction": true, "fresh": true, "trigger": true, "uses": true, "auto": true, "select": true, "oncall": true, "onrecv": true}
 
 type rawLine struct {
 	kw    string
@@ -811,6 +823,28 @@ func parseSpecFile(path string) (*SpecFile, error) {
 			k, _ := strconv.Atoi(m[1])
 			ci, _ := strconv.Atoi(m[2])
 			cur.SelectGhost = append(cur.SelectGhost, SelectGhost{Select: k, Case: ci, Ghost: m[3], E: e, Src: l.text, Where: l.where})
+		case "oncall", "onrecv":
+			// oncall <callee> <k> ghost G := e | oncall <callee> <k> assert e | onrecv <k> ghost G := e
+			txt := l.text
+			callee := "<-"
+			if l.kw == "oncall" {
+				f := strings.Fields(txt)
+				if len(f) < 3 {
+					return nil, fmt.Errorf("%s: bad oncall clause", l.where)
+				}
+				callee = f[0]
+				txt = strings.TrimSpace(txt[len(f[0]):])
+			}
+			m := regexp.MustCompile(`^(\d+)\s+(ghost\s+([A-Za-z_][A-Za-z0-9_]*)\s*:=|assert)\s*(.*)$`).FindStringSubmatch(txt)
+			if cur == nil || m == nil {
+				return nil, fmt.Errorf("%s: bad %s clause", l.where, l.kw)
+			}
+			e, err := parseExpr(m[4])
+			if err != nil {
+				return nil, fmt.Errorf("%s: %v", l.where, err)
+			}
+			k, _ := strconv.Atoi(m[1])
+			cur.CallHooks = append(cur.CallHooks, CallHook{Callee: callee, K: k, Ghost: m[3], E: e, Src: l.text, Where: l.where})
 		case "auto":
 			if curLemma == nil {
 				return nil, fmt.Errorf("%s: auto outside lemma", l.where)
